@@ -315,6 +315,11 @@ func instrumentPkg(conf pkgConf, consts map[string]string, targets map[string]bo
 				continue
 			}
 		}
+		if raw, err := os.ReadFile(filepath.Join(dir, names[i])); err == nil && bytes.Contains(raw, []byte("\n//go:embed ")) && !bytes.Contains(raw, []byte("verifResetGlobals")) {
+			// the rewriter drops comments, and an embed directive is one: such a file is left as it is
+			fmt.Fprintf(os.Stderr, "vinstr: NOTE %s/%s carries //go:embed and is not instrumented\n", conf.dir, names[i])
+			continue
+		}
 		src, err := rw.file(f)
 		if err != nil {
 			return fmt.Errorf("%s: %v", names[i], err)
